@@ -5,6 +5,8 @@ From CFDP Require Import Base.Prelude Model.Segments Model.Timer Model.TxTypes M
 Section FaultP.
 Variable FS : Type.
 Variable cksum : cktype -> bytes -> N.
+Variable resp_len : fsresp -> N.
+Variable req_len : fsreq -> N.
 Notation rstate := (rstate FS).
 
 (* receiver: the action taken is the one configured for the condition (Cancel when none is) *)
@@ -90,7 +92,7 @@ Lemma s_no_ack_expiry_quiet now (s : sstate) :
 Proof. intros Ho. unfold ht_ack_eof, c_timeout_occurred. cbn [fst snd]. rewrite Ho. reflexivity. Qed.
 (* the send arm then emits exactly one EOF PDU (the stored one), clears the mark and restarts the ACK
    timer; without the mark it emits nothing *)
-Lemma s_send_eof_once resp_len req_len now (s : sstate) e :
+Lemma s_send_eof_once now (s : sstate) e :
   s_eof s = Some (e, true) ->
   let s' := send_eof resp_len req_len now s in
   (exists p, s_out s' = OPdu p :: s_out s /\ o_payload p = PEof e) /\ s_eof s' = Some (e, false) /\
@@ -104,7 +106,7 @@ Proof.
     rewrite He. reflexivity. }
   rewrite E. cbn. splits; auto. eexists. split; reflexivity.
 Qed.
-Lemma s_send_eof_unmarked resp_len req_len now (s : sstate) :
+Lemma s_send_eof_unmarked now (s : sstate) :
   eof_flag s = false -> send_eof resp_len req_len now s = s.
 Proof. unfold eof_flag, send_eof. destruct (s_eof s) as [[e [|]]|]; intros H; [discriminate|reflexivity|reflexivity]. Qed.
 
@@ -121,7 +123,7 @@ Proof.
   destruct (r_phase s); [congruence| |]; rewrite Ho; reflexivity.
 Qed.
 (* the send arm then emits exactly one Finished PDU (the prepared one) and clears the mark *)
-Lemma r_send_finished_once resp_len req_len now (s : rstate) f :
+Lemma r_send_finished_once now (s : rstate) f :
   r_fin s = Some (f, true) ->
   let s' := send_finished resp_len req_len now s in
   (exists p, r_out s' = OPdu p :: r_out s /\ o_payload p = PFinished f) /\ r_fin s' = Some (f, false).
@@ -134,6 +136,75 @@ Proof.
     change (r_fin (emit_pdu resp_len req_len (PFinished f) (upd_ack (c_restart now) s))) with (r_fin s).
     rewrite He. reflexivity. }
   rewrite E. cbn. split; [eexists; split; reflexivity|reflexivity].
+Qed.
+
+(* ---- the receiver's NAK rounds: progress resets the count, no fault before the limit ---- *)
+Notation send_naks := (send_naks (FS:=FS) resp_len req_len).
+(* progress since the last NAK round (received_file_size moved): the NAK timer is reset - count 0 -
+   no fault is declared and one NAK PDU is emitted *)
+Lemma r_nak_round_progress now (s : rstate) : r_nak_recvd s <> r_recvd s ->
+  let s' := send_naks now s in
+  t_nak (r_timer s') = c_reset now (t_nak (r_timer s)) /\ r_nak_recvd s' = r_recvd s /\
+  r_cond s' = r_cond s /\ r_phase s' = r_phase s /\ r_state s' = r_state s /\
+  exists p, r_out s' = OPdu p :: r_out s /\ (exists n, o_payload p = PNakP n).
+Proof.
+  intros Hne. cbn zeta. unfold Recv.send_naks.
+  destruct (N.eqb_spec (r_nak_recvd s) (r_recvd s)) as [E|_]; [contradiction|].
+  cbn. splits; auto. eexists. split; [reflexivity|]. eexists. reflexivity.
+Qed.
+(* no progress, limit not reached: the timer is restarted with its count kept, no fault, one NAK PDU *)
+Lemma r_nak_round_repeat now (s : rstate) : r_nak_recvd s = r_recvd s ->
+  snd (c_limit_reached now (t_nak (r_timer s))) = false ->
+  let s' := send_naks now s in
+  t_nak (r_timer s') = c_restart now (c_update now (t_nak (r_timer s))) /\
+  r_cond s' = r_cond s /\ r_phase s' = r_phase s /\ r_state s' = r_state s /\
+  exists p, r_out s' = OPdu p :: r_out s /\ (exists n, o_payload p = PNakP n).
+Proof.
+  intros He Hl. cbn zeta. unfold Recv.send_naks. rewrite He, N.eqb_refl.
+  unfold c_limit_reached in *. cbn [fst snd] in *. rewrite Hl.
+  cbn. splits; auto. eexists. split; [reflexivity|]. eexists. reflexivity.
+Qed.
+(* no progress and the limit reached: the NakLimitReached fault is declared (handler dispatch: above) *)
+Lemma r_nak_round_limit now (s : rstate) : r_nak_recvd s = r_recvd s ->
+  snd (c_limit_reached now (t_nak (r_timer s))) = true ->
+  exists s1, s1 = upd_nak (fun _ => c_update now (t_nak (r_timer s))) s /\
+  send_naks now s =
+    (let '(s2, cont) := handle_fault now NakLimitReached s1 in
+     if cont then
+       let s3 := upd_nak (c_restart now) s2 in
+       let n := N.to_nat (N.min (N.of_nat (length (r_naks s3))) (max_nak_num (r_cfg s3))) in
+       emit_pdu resp_len req_len
+         (PNakP (mkNak (min_list (map fst (firstn n (r_naks s3))) 0)
+                       (max_list (map snd (firstn n (r_naks s3))) (end_or_0 (r_segs (set_r_naks (skipn n (r_naks s3)) s3))))
+                       (firstn n (r_naks s3))))
+         (set_r_naks (skipn n (r_naks s3)) s3)
+     else s2).
+Proof.
+  intros He Hl. eexists. split; [reflexivity|]. unfold Recv.send_naks. rewrite He, N.eqb_refl.
+  unfold c_limit_reached in *. cbn [fst snd] in *. rewrite Hl.
+  destruct (handle_fault now NakLimitReached _) as [s2 cont]. destruct cont; reflexivity.
+Qed.
+
+(* sender: an ACK(EOF) stops the ACK timer with its count cleared; any PDU received while waiting
+   resets the inactivity count *)
+Lemma s_ack_eof_clears now a (s : sstate) : cfg_mode (s_cfg s) = Acked -> ack_dir a = DirEoF ->
+  let s' := fst (s_process_pdu now (PAck a) s) in
+  c_count (t_ack (s_timer s')) = 0 /\ c_paused (t_ack (s_timer s')) = true.
+Proof.
+  intros Hm Ha. cbn zeta. unfold s_process_pdu.
+  destruct (sphase_eqb (s_phase s) SendEof && negb (ssuspended s));
+    cbn [s_cfg supd_inact set_s_timer]; rewrite Hm, Ha; cbn [fst];
+    unfold c_pause, c_reset, c_update; cbn; rewrite N.sub_diag;
+    replace (0 / c_timeout (t_ack (s_timer s))) with 0 by (destruct (c_timeout (t_ack (s_timer s))); reflexivity);
+    rewrite N.eqb_refl; cbn; auto.
+Qed.
+Lemma s_pdu_resets_inactivity now p (s : sstate) : s_phase s = SendEof -> s_state s <> TSuspended ->
+  exists s0, t_inact (s_timer s0) = c_reset now (t_inact (s_timer s)) /\
+  s_process_pdu now p s = s_process_pdu now p s0 /\ s0 = supd_inact (c_reset now) s.
+Proof.
+  intros Hp Hs. exists (supd_inact (c_reset now) s). splits; [reflexivity| |reflexivity].
+  unfold s_process_pdu. rewrite Hp. unfold ssuspended.
+  destruct (s_state s) eqn:Es; try congruence; cbn; rewrite ?Hp, ?Es; cbn; reflexivity.
 Qed.
 
 End FaultP.
